@@ -1,6 +1,37 @@
-import YncaVerif.Model.Conn
-/-! # C15 — (statements over the L4 model; under construction) -/
+import YncaVerif.Lemmas.C15
+/-! # C15 — an unexpected disconnect is reported exactly once and ends all activity (L4 model) -/
 namespace Ynca.C15
 open Ynca.L4
-theorem C15_model_initial_state : run ⟨100000, 30000000, 2000000, 1000000, 0⟩ {} [] = some {} := rfl
+
+/-- **at most once** in every execution -/
+theorem C15_at_most_once (P : Params) (s : St) (h : Reachable P s) : s.discCalls ≤ 1 :=
+  disc_at_most_once P s h
+
+/-- **exactly once** when the reader has finished `connection_lost` and no close() cleared the callback -/
+theorem C15_exactly_once (P : Params) (s : St) (h : Reachable P s) (hd : s.rpc = .done) (hc : s.closeStarted = false) :
+    s.discCalls = 1 :=
+  disc_exactly_once P s h hd hc
+
+/-- **not connected** from the first step of `connection_lost` on -/
+theorem C15_not_connected (P : Params) (s : St) (h : Reachable P s)
+    (hl : lossBegun s.rpc = true) (h0 : s.rpc ≠ .lost 0) : s.connected = false ∧ s.alive = false :=
+  lost_not_connected P s h hl h0
+
+/-- **no delivery afterwards**: once `connection_lost` has begun no message callback is ever started -/
+theorem C15_no_delivery_after (P : Params) (s s' : St) (l : Label) (cb : Nat) (m : Msg)
+    (hl : lossBegun s.rpc = true) (h : step P s l = some (s', some (.msgCb cb m))) : False :=
+  no_msgcb_after_loss P s s' l cb m hl h
+
+/-- `connection_lost` is irreversible -/
+theorem C15_loss_is_final (P : Params) (s s' : St) (l : Label) (o : Option Obs)
+    (hl : lossBegun s.rpc = true) (h : step P s l = some (s', o)) : lossBegun s'.rpc = true :=
+  loss_final P s s' l o hl h
+
+/-- **queued commands are discarded**: when the reader has posted the exit marker, the queue holds nothing
+    that was queued before the loss began except what the sender grabbed itself (the queue was drained to
+    empty before the marker was posted) -/
+theorem C15_drained (P : Params) (s s' : St) (o : Option Obs) (h2 : s.rpc = .lost 1) (hq : s.queue = [])
+    (h : step P s .r = some (s', o)) : s'.rpc = .lost 2 ∧ s'.queue = [] :=
+  drain_done P s s' o h2 hq h
+
 end Ynca.C15
